@@ -2,6 +2,10 @@
 """Collect confirmed seeded changes (scratch worktrees under /tmp/wt, results under /var/tmp/mutres) into /verif/seeded/<ID>-<n>/."""
 import json, os, re, shutil, sys
 NOTES = {
+ 'c08-10': 'round 4; missed at first (no case programmed remote loop-back, MR2 bits 7:6 = 11); caught after the mode x receiver-enable slice was added to C08',
+ 'c09-11': 'round 4; missed at first (no transmit history with four unread characters on the same channel); caught after the transmit-with-receive-backlog slice was added to C09',
+ 'c09-12': 'round 4; missed at first (loop-back was only exercised with the receiver enabled); caught after the mode x receiver-state slice was added to C09',
+ 'c20-10': 'round 4; missed at first (no channel command between a button event and its acknowledgement); caught after the event-then-command slice was added to C20',
  'c13-1': 'missed by the first C13 slice (no divide-overflow case with a faulting destination); caught after the generator gained that case',
  'c07-1': 'missed by the first C07 slice (the interrupted PSW never had R set); caught after the generator varies the R bit of the interrupted PSW',
  'c12-1': 'missed by the first C12 slice; caught after the hostile streams gained chains of expanded-type prefixes',
